@@ -158,6 +158,8 @@ def apply_delta(p0, p1, mods, root, plain, mode):
     if mode == "reload":
         progen.write_pkg(p1, root, plain)
         importlib.invalidate_caches()
+        if mods.get("q") is not None:
+            importlib.reload(mods["q"])
         if "b" in mods and mods["b"] is not None:
             importlib.reload(mods["b"])
         importlib.reload(mods["a"])
@@ -191,7 +193,7 @@ def _inproc_child(editions, root, store_dir, calls, plain, mode, vnames, cluster
         set_env(store_dir, clusters)
     progen.write_pkg(editions[0], root, plain)
     a = _import_pkg(root)
-    mods = {"a": a, "b": sys.modules.get("vfp.b")}
+    mods = {"a": a, "b": sys.modules.get("vfp.b"), "q": sys.modules.get("vfq.lib")}
     out = []
     for k, ed in enumerate(editions):
         if k > 0:
